@@ -25,6 +25,7 @@ type asyncRun struct {
 	nonce    uint64
 	h0       uint32
 	varVals  bool
+	pending  map[int]bool // node id -> the application's ledger has moved on, Reset not called yet
 }
 
 func pick[T any](r *mrand.Rand, l []T) T { return l[r.Intn(len(l))] }
@@ -101,7 +102,7 @@ func runAsync(out *TraceWriter, seed int64, run int, steps int) {
 	seedNonces(seed*7 + int64(run))
 	c := NewCluster(seed+int64(run), out)
 	c.Rng = rng
-	a := &asyncRun{c: c, rng: rng, amnesia: -1, byz: []int{}, valTable: map[uint32][]int{}, seen: map[int]map[int]bool{}, byzProps: map[[2]int][]*Payload{}}
+	a := &asyncRun{c: c, rng: rng, amnesia: -1, byz: []int{}, valTable: map[uint32][]int{}, seen: map[int]map[int]bool{}, byzProps: map[[2]int][]*Payload{}, pending: map[int]bool{}}
 	a.n0 = []int{4, 4, 4, 4, 4, 4, 4, 7, 5, 6, 3, 2, 1, 10}[rng.Intn(14)]
 	a.h0 = uint32(rng.Intn(7))
 	a.varVals = rng.Intn(100) < 20
@@ -255,6 +256,12 @@ func (a *asyncRun) step() {
 		}
 	case 4: // ledger advance / sync + Reset
 		n := pick(rng, c.Nodes)
+		if a.pending[n.ID] {
+			delete(a.pending, n.ID)
+			a.setupPool(n)
+			c.Emit(n.Reset())
+			return
+		}
 		if b := c.Chain[n.Height+1]; b != nil {
 			own := n.Accepted[n.Height+1]
 			if len(own) > 0 {
@@ -265,6 +272,10 @@ func (a *asyncRun) step() {
 				b = c.Chain[b.Rec.H+1]
 			}
 			n.AdvanceLedger(b)
+			if rng.Intn(100) < 25 { // the application has the block but calls Reset only later
+				a.pending[n.ID] = true
+				return
+			}
 			a.setupPool(n)
 			c.Emit(n.Reset())
 		}
@@ -273,6 +284,7 @@ func (a *asyncRun) step() {
 			return
 		}
 		n := c.byID[a.amnesia]
+		delete(a.pending, n.ID)
 		if b := c.Chain[n.Height+1]; b != nil && rng.Intn(2) == 0 {
 			n.AdvanceLedger(b)
 		}
